@@ -1,4 +1,73 @@
-From Verif Require Import Base.Bytes Model.Uri Spec.PathSpec.
-Theorem C09_smoke : canon_path false [] = Some slash.
-Proof. reflexivity. Qed.
-Print Assumptions C09_smoke.
+(* Property C09: statement pins.  Nothing but restated theorems closed by [exact], with
+   Print Assumptions under each.  Written by tools/mkprops.py at development time; committed. *)
+From Coq Require Import List Bool NArith Arith Lia Wf_nat.
+From Coq Require Import Strings.Byte.
+From Verif Require Import Base.Bytes Base.Hex Generated.SrcConsts Model.Uri Spec.PathSpec.
+From Verif Require Import Proofs.PathProofs.
+Local Open Scope byte_scope.
+
+Theorem C09_normalize_elem_path_spec :
+  forall s, has_plus s = false ->
+  normalize_elem s = option_map pct_encode (pct_decode false s).
+Proof. exact PathProofs.normalize_elem_path_spec. Qed.
+Print Assumptions C09_normalize_elem_path_spec.
+
+Theorem C09_pct_decode_encode :
+  forall plus s, pct_decode plus (pct_encode s) = Some s.
+Proof. exact PathProofs.pct_decode_encode. Qed.
+Print Assumptions C09_pct_decode_encode.
+
+Theorem C09_pct_encode_inj :
+  forall a b, pct_encode a = pct_encode b -> a = b.
+Proof. exact PathProofs.pct_encode_inj. Qed.
+Print Assumptions C09_pct_encode_inj.
+
+Theorem C09_model_is_spec :
+  forall s3 p, has_plus p = false -> canon_path s3 p = spec_path s3 p.
+Proof. exact PathProofs.C09_model_is_spec. Qed.
+Print Assumptions C09_model_is_spec.
+
+Theorem C09_idempotent :
+  forall s3 p c, canon_path s3 p = Some c -> canon_path s3 c = Some c.
+Proof. exact PathProofs.C09_idempotent. Qed.
+Print Assumptions C09_idempotent.
+
+Theorem C09_fails_iff_spec_fails :
+  forall s3 p, canon_path s3 p = None <-> spec_path s3 p = None.
+Proof. exact PathProofs.C09_fails_iff_spec_fails. Qed.
+Print Assumptions C09_fails_iff_spec_fails.
+
+Theorem C09_spec_failure_set :
+  forall s3 p,
+  spec_path s3 p = None <->
+  (exists c r, p = c :: r /\ c <> "/"%byte)
+  \/ (exists r, p = "/"%byte :: r /\ r <> [] /\
+        (map_opt (pct_decode false) (split_on "/"%byte r) = None
+         \/ (s3 = false /\ exists d, map_opt (pct_decode false) (split_on "/"%byte r) = Some d /\
+               resolve_dots (filter (fun s => negb (is_nil s)) d) [] = None))).
+Proof. exact PathProofs.C09_spec_failure_set. Qed.
+Print Assumptions C09_spec_failure_set.
+
+Theorem C09_alphabet :
+  forall s3 p c, canon_path s3 p = Some c -> canon_text c.
+Proof. exact PathProofs.C09_alphabet. Qed.
+Print Assumptions C09_alphabet.
+
+Theorem C09_no_dot_segments :
+  forall p c, canon_path false p = Some c ->
+  forall seg, In seg (split_on "/"%byte c) -> seg <> ["."%byte] /\ seg <> ["."%byte; "."%byte].
+Proof. exact PathProofs.C09_no_dot_segments. Qed.
+Print Assumptions C09_no_dot_segments.
+
+Theorem C09_spelling_insensitive :
+  forall s3 r1 r2,
+  has_plus r1 = false -> has_plus r2 = false -> r1 <> [] -> r2 <> [] ->
+  map_opt (pct_decode false) (split_on "/"%byte r1) = map_opt (pct_decode false) (split_on "/"%byte r2) ->
+  canon_path s3 ("/"%byte :: r1) = canon_path s3 ("/"%byte :: r2).
+Proof. exact PathProofs.C09_spelling_insensitive. Qed.
+Print Assumptions C09_spelling_insensitive.
+
+Theorem C09_model_is_spec_plus_refuted :
+  exists s3 p, has_plus p = true /\ canon_path s3 p <> spec_path s3 p.
+Proof. exact PathProofs.C09_model_is_spec_plus_refuted. Qed.
+Print Assumptions C09_model_is_spec_plus_refuted.
